@@ -17,7 +17,8 @@ func init() {
 		Run:   runC13,
 		Explanation: "C13.shorten: Size.Shorten is evaluated abstractly on a 64-bit vector whose 10·k low bits are zero and whose k-th group of ten bits is not (k = 0..6), literal tables resolved to their contents, helper functions inlined: every path returns (s >> 10k, the k-th of B, KiB, MiB, GiB, TiB, PiB, EiB); zero returns (0, B). Bit tests on part of the deciding group are explored both ways. " +
 			"C13.methods: String / PrettyString / PrettyHTML evaluate to Formatter(<nil or fresh zero-length buffer>, s, 0 / FormatPretty / FormatPretty|FormatHTML) converted, independent of the marshal switches; formatter error: decimal fallback resp. panic; Formatter is initialised to DefaultFormatter. C13.buffer: the digit text and the destination do not share storage (append-only and buffer-independence rules of C16 on size.DefaultFormatter). C13.sep: appendSeparator as a decision table over the three flag sets the property renders with (none, pretty, pretty+HTML): nothing / \" \" / \"&nbsp;\". " +
-			"C13.format: size.DefaultFormatter evaluated abstractly for every digit count 1..20 (all a uint64 can have) and each of the four flag combinations, Shorten's results opaque and the decimal text n symbolic digits: the result is buf, the digits in order with that combination's separator after every digit that has a multiple of three digits to its right (one before the unit), then the unit, and nothing else. Loop form, helper functions and how the separator is obtained do not matter.",
+			"C13.format: size.DefaultFormatter evaluated abstractly for every digit count 1..20 (all a uint64 can have) and each of the four flag combinations, Shorten's results opaque and the decimal text n symbolic digits: the result is buf, the digits in order with that combination's separator after every digit that has a multiple of three digits to its right (one before the unit), then the unit, and nothing else. Loop form, helper functions and how the separator is obtained do not matter." +
+			" A slice the evaluator keeps by value stops the evaluation when it is rewritten in place (copy, a writing callee — also when the slice is boxed —, append onto a re-slice that stops short of its operand's end).",
 		NotDecided:  []string{"the inductive value invariant value·1024^steps = size of the Shorten loop for all 2^64 sizes (follows from mask/shift agreement; stated, not machine-checked)"},
 		Assumptions: []string{"strconv.FormatUint prints canonical decimal"},
 		Technique:   "abstract evaluation over exhaustive scenario partitions (trailing-zero groups of the size; digit counts x flags of the rendering) + decision tables over go/ssa",
